@@ -8,7 +8,7 @@ from contracts.common import (PIXCOORD, CIRCLE, ELLIPSE, RECTANGLE, POLYGON, POI
 from spec.geometry import cs, sq
 from spec.arrays import elem, idx_ok, same_shape
 from spec.boxes import same_box
-from vprim import implies
+from vprim import implies, is_array
 
 UQ = {u + '-' + q: {'unit': u, 'q': q} for u in UNITS for q in ('scalar', 'arr1')}
 UU = {u: {'unit': u} for u in UNITS}
@@ -33,6 +33,8 @@ class pixcoord_rotate:
             and elem(result.y, k, l) == rot(center.x, center.y, cs(angle)[0], cs(angle)[1], elem(self.x, k, l), elem(self.y, k, l))[1]),
         'same_shape': lambda self, result: same_shape(result.x, self.x) and same_shape(result.y, self.y),
         'is_pixcoord': lambda self, result: result.__class__ is self.__class__,
+        # "the rotated coordinates (which is an independent copy)": also for a null rotation
+        'is_a_new_object': lambda self, result: result is not self and (result.x is not self.x or not is_array(self.x)),
     }
 
 
